@@ -6,8 +6,8 @@ from sx.core import conj, disj, ite, lift, mk_seq, model_bytes, neg, sym_bytes, 
 from sx.run import Ob, verdict, viol
 
 ASSUMPTIONS = [
-    'data length bounded (see bounds); newline drawn from the 10 sequences the library can produce for '
-    'LF/CRLF in ascii/utf-8, utf-16-le/be, utf-32-le/be',
+    'data length bounded (see bounds); newline drawn from every distinct byte sequence LF / CRLF encode to in any text '
+    'codec of the platform (ascii-compatible, utf-16/32 le/be, and the EBCDIC code pages where LF is 0x25 = "%")',
     'bytes.split / endswith / slicing / %-formatting modelled element-wise (validated concolically each run)',
 ]
 
@@ -18,6 +18,33 @@ NEWLINES = [
     '\n'.encode('utf-32-le'), '\r\n'.encode('utf-32-le'),
     '\n'.encode('utf-32-be'), '\r\n'.encode('utf-32-be'),
 ]
+
+
+def _platform_newlines():
+    """every distinct byte sequence that LF / CRLF encode to (BOM removed) in any text codec of the platform: beyond the
+    ten above these are the EBCDIC code pages, where LF is 0x25 -- the ASCII percent sign"""
+    import codecs
+    import encodings.aliases
+    out = []
+    for n in sorted(set(encodings.aliases.aliases.values())):
+        try:
+            info = codecs.lookup(n)
+            if not getattr(info, '_is_text_encoding', True):
+                continue
+            for t in ('\n', '\r\n'):
+                b = t.encode(n)
+                for bom in (codecs.BOM_UTF32_LE, codecs.BOM_UTF32_BE, codecs.BOM_UTF8, codecs.BOM_UTF16_LE, codecs.BOM_UTF16_BE):
+                    if b.startswith(bom) and len(b) > len(bom):
+                        b = b[len(bom):]
+                        break
+                if b not in out and b not in NEWLINES:
+                    out.append(b)
+        except Exception:
+            continue
+    return out
+
+
+NEWLINES = NEWLINES + _platform_newlines()
 
 
 def _split_lines():
